@@ -5,6 +5,7 @@
 #
 """CMD_SIGN CLI command entry point."""
 
+import io
 import json
 import uuid
 import logging
@@ -28,6 +29,7 @@ SIGN_RECURSIVE_CMD = "recursive"
 log = logging.getLogger(__name__)
 
 SIGN_CMD = "sign"
+SUIT_ENVELOPE_TAG = 107
 
 
 def _mutable_envelope(envelope):
@@ -157,10 +159,17 @@ class RecursiveSigner:
         if not isinstance(self.envelope.value[dependency_name], bytes):
             raise ValueError(f"Dependency {dependency_name} in {self.envelope_name} is invalid.")
         try:
-            dependency_envelope = cbor2.loads(self.envelope.value[dependency_name])
+            dependency_stream = io.BytesIO(self.envelope.value[dependency_name])
+            dependency_envelope = cbor2.load(dependency_stream)
         except cbor2.CBORDecodeError:
             raise ValueError(f"Failed decoding dependency {dependency_name} in {self.envelope_name}")
-        if not isinstance(dependency_envelope, cbor2.CBORTag):
+        # Only a complete SUIT envelope is accepted - any other item (other tag, trailing bytes) would be
+        # re-encoded and silently lose data
+        if (
+            not isinstance(dependency_envelope, cbor2.CBORTag)
+            or dependency_envelope.tag != SUIT_ENVELOPE_TAG
+            or dependency_stream.read(1)
+        ):
             raise ValueError(f"Dependency {dependency_name} in {self.envelope_name} is not a valid envelope.")
 
         return _mutable_envelope(dependency_envelope)
